@@ -96,7 +96,7 @@ def main():
         hooks_commits = [l.split()[0] for l in open(hc) if l.strip() and not l.startswith("#")]
     m = {
         "version": 1,
-        "setup_cmd": "cd /verif/harness && cp -n /repo/go.sum go.sum; GOFLAGS=-mod=mod GOPROXY=off GOSUMDB=off GOTOOLCHAIN=local go test -race -tags verif -count=1 -run '^$' ./...",
+        "setup_cmd": "cd /verif && ./check --setup",
         "hooks": {
             "guard": "verif",
             "enable": "go build tag: go test -race -tags verif (harness module replaces github.com/buzzfeed/sso => /repo)",
